@@ -229,7 +229,7 @@ def shrink(mod, values, target_key, budget_runs=250, budget_s=150):
 
 
 def write_replay(prop, seed, values, out, v, tag=""):
-    d = os.path.join(VERIF, "replays")
+    d = os.environ.get("VERIF_REPLAY_DIR") or os.path.join(VERIF, "replays")
     os.makedirs(d, exist_ok=True)
     key = hashlib.sha1(repr(_vkey(v)).encode()).hexdigest()[:8]
     path = os.path.join(d, f"{prop}-{seed}-{key}{tag}.json")
@@ -388,8 +388,9 @@ def run_batch(prop: str, tier: str, seed: int, nproc: int | None = None) -> int:
         "wall_s": round(wall_s, 2),
         "violations": n_viol,
     }
-    os.makedirs(os.path.join(VERIF, "evidence"), exist_ok=True)
-    with open(os.path.join(VERIF, "evidence", f"{prop}.json"), "w") as f:
+    evdir = os.environ.get("VERIF_EVIDENCE_DIR") or os.path.join(VERIF, "evidence")
+    os.makedirs(evdir, exist_ok=True)
+    with open(os.path.join(evdir, f"{prop}.json"), "w") as f:
         json.dump(ev, f, indent=1, default=str)
 
     for (clause, sigj), n in sorted(probe_groups.items())[:12]:
